@@ -105,6 +105,10 @@ def lin(e, fn=None):
             a, ca = lin(e[2], fn)
             m = 1 << cb
             return ({kk: v * m for kk, v in a.items()}, ca * m)
+    if k == "call" and e[1].startswith("core::mem::size_of::<"):
+        sz = {"usize": 8, "isize": 8, "u64": 8, "i64": 8, "u32": 4, "i32": 4, "u16": 2, "u8": 1, "u128": 16}.get(e[1][len("core::mem::size_of::<"):-1])
+        if sz is not None:
+            return ({}, sz)
     if k == "call" and e[1].endswith("cmp::min") and len(e[2]) == 2:
         a, b = sorted([canon(e[2][0], fn), canon(e[2][1], fn)])
         return ({"min(%s,%s)" % (a, b): 1}, 0)
